@@ -1,4 +1,5 @@
 """C01 - update Theta sketch."""
+import os, re, shutil
 from . import core
 from .props import prop, job, mc_all, Q, T
 
@@ -23,6 +24,33 @@ THETA_JOB = job("theta",
     nontrivial=theta_nontrivial,
 )
 
+GEN_DIR = os.path.join(core.BUILD, "gen_theta")
+
+def gen_theta(oc, tier, seed):
+    """spec -> impl: TLC -simulate walks the Theta design model with the code's real minimum sizes (GenTheta.tla) and writes each
+    finished walk, with the model's expected state after every step, for harness/theta_replay.cpp."""
+    shutil.rmtree(GEN_DIR, ignore_errors=True)
+    os.makedirs(GEN_DIR, exist_ok=True)
+    n = 6 if tier == Q else 30
+    rc, out, wall = core.tlc("GenTheta", "GenTheta.cfg", workers=4, timeout=900, heap="2g",
+                             simulate="num=%d" % n, extra=("-depth", "151", "-seed", str(seed)))
+    r = core.parse_tlc(out)
+    nb = len([f for f in os.listdir(GEN_DIR) if f.endswith(".ndjson")])
+    if nb == 0 or r["parse_error"]:
+        raise core.MachineryError("behaviour generation GenTheta produced nothing:\n" + out[-2000:])
+    m = re.search(r"The number of states generated: (\d+)", out)
+    oc.mc.append({"module": "GenTheta", "cfg": "GenTheta.cfg (-simulate)", "generated": int(m.group(1)) if m else 0, "distinct": nb * 151,
+                  "depth": 151, "wall_s": round(wall, 1)})
+    oc.extra["generated_behaviours"] = nb
+    core.log("  generated %d behaviours of depth 150 with TLC -simulate in %.1fs" % (nb, wall))
+
+THETA_REPLAY_JOB = job("theta_replay",
+    harness="theta_replay", inc=["common", "theta"], spec="TraceTheta", owners=["C01"], drift_cfg="TraceThetaB.cfg",
+    files={Q: 2, T: 4},
+    args=lambda tier, seed, k, profile: ["--dir", GEN_DIR, "--part", k, "--parts", 2 if tier == Q else 4],
+    nontrivial=theta_nontrivial,
+)
+
 THETA_MC = [
     dict(module="ThetaDesign", cfg="MC_ThetaDesign.cfg"),
     dict(module="ThetaDesign", cfg="MC_ThetaDesign_rf0.cfg"),
@@ -41,3 +69,5 @@ THETA_MC = [
 def run_c01(oc, repo, seed, tier):
     mc_all(oc, THETA_MC, tier)
     core.trace_job(oc, THETA_JOB, repo, seed, tier)
+    gen_theta(oc, tier, seed)
+    core.trace_job(oc, THETA_REPLAY_JOB, repo, seed, tier)
